@@ -105,7 +105,13 @@ func randOutput(r *Rng, prefix string, nf, nc int) (string, int, bool) {
 	if r.Chance(70) {
 		sb.WriteString(randText(r, prefix))
 	}
-	return sb.String(), valid, clean
+	// the random text can assemble the prefix by itself (a proper prefix of it followed by the
+	// right character): the output is "clean" only if the prefix occurs exactly at the valid keys
+	out := sb.String()
+	if strings.Count(out, prefix) != valid {
+		clean = false
+	}
+	return out, valid, clean
 }
 
 var mockFS = fs.MockFS(map[string]string{}, fs.MockUnix, "/")
